@@ -93,11 +93,11 @@ func VH_C15_object_size() {
 	g := &generator{}
 	g.imports.init()
 	nd := &node{Node: n}
-	_, err = g.ObjectSize(nd)
+	str, err := g.ObjectSize(nd)
 	vReach("returned")
 	vAssert(err == nil, "C15.objectsize.ok")
-	vAssert(vFmtArg(1) == 8*uint64(dw), "C15.objectsize.data-bytes-is-8-times-word-count")
-	vAssert(vFmtArg(2) == uint64(pc), "C15.objectsize.pointer-count")
+	vAssert(vFmtInt(1, str) == 8*uint64(dw), "C15.objectsize.data-bytes-is-8-times-word-count")
+	vAssert(vFmtInt(2, str) == uint64(pc), "C15.objectsize.pointer-count")
 	off, err := nd.DiscriminantOffset()
 	vAssert(err == nil && uint64(off) == 2*uint64(do), "C15.discriminant.byte-offset")
 }
